@@ -11,6 +11,7 @@
 import CxVerif.Proofs.Fe64Chain
 import CxVerif.Proofs.Fe64Pred
 import CxVerif.Proofs.Fe64FromBytes
+import CxVerif.Proofs.Field25519Prime
 namespace Cx.Props.C15
 open Cx Cx.Spec Cx.Impl.Fe64 Cx.Proofs.Fe64
 open Cx.Spec.Field25519 (p)
@@ -58,6 +59,13 @@ theorem mul_small_correct (f : Fe) (s : Nat) (hf : Loose f) (hs : s < 2^32) :
 /-- `invert z = z^(p−2)` (exponent identity of the addition chain; `0 ↦ 0`) -/
 theorem invert_correct (z : Fe) (hz : Loose z) :
     ∃ h, invert z = some h ∧ Tight h ∧ eval h = Field25519.inv (eval z) := invert_spec z hz
+/-- `invert` really inverts — this needs primality of `p`, an explicit hypothesis (not proved here) -/
+theorem invert_is_inverse_of_prime (hp : Nat.Prime p) (z : Fe) (hz : Loose z) (hnz : eval z ≠ 0) :
+    ∃ h, invert z = some h ∧ Tight h ∧ Field25519.mul (eval z) (eval h) = 1 := by
+  obtain ⟨h, e, t, v⟩ := invert_spec z hz
+  refine ⟨h, e, t, ?_⟩
+  rw [v]
+  exact Cx.Proofs.Field25519.mul_inv_of_prime hp (eval z) (by rw [eval_mod]; exact hnz)
 /-- `pow25523 z = z^((p−5)/8)` -/
 theorem pow25523_correct (z : Fe) (hz : Loose z) :
     ∃ h, pow25523 z = some h ∧ Tight h ∧ eval h = Field25519.pow25523 (eval z) := pow25523_spec z hz
@@ -204,6 +212,9 @@ theorem den_lt (e : Expr) : e.den < p := by
   rw [← vf]; exact eval_lt f
 
 /-! ## non-vacuity: concrete inputs meet the hypotheses -/
+
+/-- `eval z ≠ 0` of `invert_is_inverse_of_prime` is met e.g. by `Fe::D` -/
+example : Loose Fe.D ∧ eval Fe.D ≠ 0 := by decide
 
 example : Loose ⟨2^54 - 1, 2^54 - 1, 2^54 - 1, 2^54 - 1, 2^54 - 1⟩ := by decide
 example : SubOk ⟨2^53 - 76, 2^53 - 76, 2^53 - 76, 2^53 - 76, 2^53 - 76⟩ := by decide
